@@ -554,6 +554,7 @@ class AsyncServer(base_server.BaseServer):
             await self._send_packet(eio_sid, self.packet_class(
                 packet.CONNECT, {'sid': sid}, namespace=namespace))
         fail_reason = exceptions.ConnectionRefusedError().error_args
+        error = None
         try:
             if data:
                 success = await self._trigger_event(
@@ -567,6 +568,10 @@ class AsyncServer(base_server.BaseServer):
                         'connect', namespace, sid, self.environ[eio_sid], None)
         except exceptions.ConnectionRefusedError as exc:
             fail_reason = exc.error_args
+            success = False
+        except Exception as exc:
+            # a connect handler that fails has not accepted the client
+            error = exc
             success = False
 
         if success is False:
@@ -584,6 +589,8 @@ class AsyncServer(base_server.BaseServer):
             # (a connect handler may have disconnected the client itself)
             await self._send_packet(eio_sid, self.packet_class(
                 packet.CONNECT, {'sid': sid}, namespace=namespace))
+        if error is not None:
+            raise error
 
     async def _handle_disconnect(self, eio_sid, namespace, reason=None):
         """Handle a client disconnect."""
